@@ -40,7 +40,7 @@ type RunConfig struct {
 func defaultConfig(tier string) *RunConfig {
 	c := &RunConfig{
 		Tier: tier, MaxInstrs: 20_000_000, MaxDecisions: 4000, MaxConcretize: 70, MaxThreads: 4, MaxPreempt: 2,
-		MaxAlloc: 1 << 22, MaxPaths: 200000, TimeoutMs: 10000, Workers: 8, SolverBin: "z3", SamplePaths: 6,
+		MaxAlloc: 1 << 22, MaxPaths: 200000, TimeoutMs: 10000, Workers: 8, SolverBin: defaultSolver(), SamplePaths: 6,
 	}
 	if tier == "thorough" {
 		c.TimeoutMs = 60000
@@ -69,28 +69,28 @@ type Violation struct {
 }
 
 type PathResult struct {
-	Status      string
-	Msg         string
-	Decisions   int
-	Forks       int
-	Merges      int
-	Threads     int
-	Switches    int
-	FeasUnknown int
-	Instrs      int64
-	SolverDec   bool
-	Trace       []Decision
-	Violation   *Violation
-	Covers      map[string]bool
-	Proved      map[string]int // assertion label → discharged (unsat or concretely true) count
-	Unknown     map[string]int
-	Assumes     map[string]bool
-	Sample      map[string]string
+	Status        string
+	Msg           string
+	Decisions     int
+	Forks         int
+	Merges        int
+	Threads       int
+	Switches      int
+	FeasUnknown   int
+	Instrs        int64
+	SolverDec     bool
+	Trace         []Decision
+	Violation     *Violation
+	Covers        map[string]bool
+	Proved        map[string]int // assertion label → discharged (unsat or concretely true) count
+	Unknown       map[string]int
+	Assumes       map[string]bool
+	Sample        map[string]string
 	RuntimePanics []string
-	Bounds      map[string]int
-	Notes       map[string]bool
-	Tags        []string
-	CrashPoints int
+	Bounds        map[string]int
+	Notes         map[string]bool
+	Tags          []string
+	CrashPoints   int
 }
 
 func (r *PathResult) noteRuntimePanic(msg string) {
@@ -98,40 +98,40 @@ func (r *PathResult) noteRuntimePanic(msg string) {
 		r.RuntimePanics = append(r.RuntimePanics, msg)
 	}
 }
-func (r *PathResult) noteExplicitPanic(fn string) {}
+func (r *PathResult) noteExplicitPanic(fn string)      {}
 func (r *PathResult) noteHugeAlloc(fn string, n int64) {}
 
 type HarnessResult struct {
-	Name        string         `json:"harness"`
-	Paths       int            `json:"paths"`
-	ByStatus    map[string]int `json:"paths_by_status"`
-	Decisions   int            `json:"decision_points"`
-	Forks       int            `json:"forks"`
-	Merges      int            `json:"diamond_merges"`
-	SolverPaths int            `json:"paths_with_solver_decided_branch"`
-	Distinct    int            `json:"distinct_decision_sequences"`
-	Instrs      int64          `json:"ssa_instructions_executed"`
-	Solver      SolverStats    `json:"solver"`
-	Proved      map[string]int `json:"assertions_discharged"`
-	Unknown     map[string]int `json:"assertions_unknown,omitempty"`
-	Covers      []string       `json:"covers_hit"`
-	CoversMiss  []string       `json:"covers_missed,omitempty"`
-	Assumes     []string       `json:"assumptions"`
-	Violations  []*Violation   `json:"violations,omitempty"`
-	Incon       map[string]int `json:"inconclusive_reasons,omitempty"`
-	Funcs       []string       `json:"functions_encoded"`
-	Stubs       []string       `json:"models_hit"`
+	Name        string              `json:"harness"`
+	Paths       int                 `json:"paths"`
+	ByStatus    map[string]int      `json:"paths_by_status"`
+	Decisions   int                 `json:"decision_points"`
+	Forks       int                 `json:"forks"`
+	Merges      int                 `json:"diamond_merges"`
+	SolverPaths int                 `json:"paths_with_solver_decided_branch"`
+	Distinct    int                 `json:"distinct_decision_sequences"`
+	Instrs      int64               `json:"ssa_instructions_executed"`
+	Solver      SolverStats         `json:"solver"`
+	Proved      map[string]int      `json:"assertions_discharged"`
+	Unknown     map[string]int      `json:"assertions_unknown,omitempty"`
+	Covers      []string            `json:"covers_hit"`
+	CoversMiss  []string            `json:"covers_missed,omitempty"`
+	Assumes     []string            `json:"assumptions"`
+	Violations  []*Violation        `json:"violations,omitempty"`
+	Incon       map[string]int      `json:"inconclusive_reasons,omitempty"`
+	Funcs       []string            `json:"functions_encoded"`
+	Stubs       []string            `json:"models_hit"`
 	Samples     []map[string]string `json:"samples"`
-	Bounds      map[string]int `json:"bounds"`
-	Notes       []string       `json:"notes,omitempty"`
-	Wall        float64        `json:"wall_s"`
-	Threads     int            `json:"threads_spawned"`
-	Switches    int            `json:"context_switches"`
-	FeasUnknown int            `json:"feasibility_unknown_kept"`
-	CrashPoints int            `json:"crash_points_max"`
-	Internal    []string       `json:"internal_errors,omitempty"`
-	TimedOut    bool           `json:"timed_out,omitempty"`
-	PathCapHit  bool           `json:"path_cap_hit,omitempty"`
+	Bounds      map[string]int      `json:"bounds"`
+	Notes       []string            `json:"notes,omitempty"`
+	Wall        float64             `json:"wall_s"`
+	Threads     int                 `json:"threads_spawned"`
+	Switches    int                 `json:"context_switches"`
+	FeasUnknown int                 `json:"feasibility_unknown_kept"`
+	CrashPoints int                 `json:"crash_points_max"`
+	Internal    []string            `json:"internal_errors,omitempty"`
+	TimedOut    bool                `json:"timed_out,omitempty"`
+	PathCapHit  bool                `json:"path_cap_hit,omitempty"`
 	declCovers  map[string]bool
 }
 
